@@ -194,13 +194,34 @@ theorem depolHs_rows {K : Type} [CommRing K] (p : K) (hs : List (List K)) (i : N
     (depolHs p hs)[i]? = some (hs[i].map ((if i = 0 then (1 : K) else 1 - p) * ·)) := by
   simp [depolHs, depolDiag, hi]
 
+/-- C15.f `depol_preserves_equality_constraint`: depolarisation leaves the equality constraints alone — component 0 of a
+state / POVM-element vector (the trace component) and row 0 of a gate's or measurement-process element's
+Hilbert–Schmidt matrix (the trace-preservation row; hence also the sum of the rows 0 of a measurement process) are
+unchanged, for every rate `p`, any size, any commutative ring. -/
+theorem depol_preserves_equality_constraint {K : Type} [CommRing K] (p : K) :
+    (∀ (v : List K) (h : 0 < v.length), (depolVec p v)[0]? = some v[0]) ∧
+    (∀ (hs : List (List K)) (h : 0 < hs.length), (depolHs p hs)[0]? = some hs[0]) := by
+  constructor
+  · intro v h
+    rw [depol_eq_mixture]
+    simp only [mixVec, List.getElem?_map, List.getElem?_zipIdx, List.getElem?_eq_getElem h, Option.map_some,
+      Nat.zero_add, ite_true, Option.some.injEq]
+    ring
+  · intro hs h
+    rw [depolHs_rows p hs 0 h]
+    simp
+
+example : (depolVec (1/4 : Rat) [1, 2, 3, 4])[0]? = some 1 ∧ (depolHs (1/2 : Rat) [[1, 0], [3, 4]])[0]? = some [1, 0] := by
+  decide +kernel
+
 section convex
 open scoped ComplexOrder
 variable {n : Type*} [Fintype n] {𝕜 : Type*} [RCLike 𝕜]
 
 /-- C15.f `depol_convex_physical_partial`: a mixture of two density matrices with weights `1-p`, `p`, `0 ≤ p ≤ 1`, is a density
 matrix (positive semidefinite, trace one): the physical set is convex, so the depolarised object is physical whenever
-the ideal one is (the maximally mixed object is physical). Missing: this is the convexity argument for **states** only,
+the ideal one is (the maximally mixed object is physical). The equality constraints of all four object types are covered
+by `depol_preserves_equality_constraint`. Missing: positivity — this is the convexity argument for **states** only,
 stated on abstract matrices (not tied to `depolVec`); physicality of depolarised gates / POVMs / measurement processes
 (Choi positivity + trace preservation under the mixture) and of random-Lindbladian objects is observed on the
 implementation by the harness (`is_physical` of every generated object), not proved. -/
@@ -303,6 +324,36 @@ theorem violation_check_short_row_raises (nNum : Nat) (r : List Verdict) (rs : L
         · simp only [allPassFrom, ih hm]
           cases rowsPass f k (r :: rs) <;> rfl
   simp [violationCheck, violationCheckCore, allPass, hk _ _ (List.mem_range.mpr h)]
+
+/-- C15.g `violation_check_short_row_raises_general`: whenever the estimator enforces a constraint, **any** stored result
+with fewer estimates than sample sizes makes the check raise (IndexError) — wherever that result sits in the list. (For
+estimators that enforce nothing the check does not look at the estimates at all and passes.) -/
+theorem violation_check_short_row_raises_general (kind : EstKind) (para : Bool) (nNum : Nat)
+    (results : List (List Verdict)) (r : List Verdict) (hr : r ∈ results) (hshort : r.length < nNum)
+    (henf : enforcesEq kind para = true ∨ enforcesIneq kind = true) :
+    violationCheck kind para nNum results = none := by
+  have hne : results ≠ [] := by intro h; simp [h] at hr
+  have hvc : violationCheck kind para nNum results = violationCheckCore kind para nNum results := by
+    cases results with
+    | nil => exact absurd rfl hne
+    | cons x xs => simp [violationCheck]
+  rw [hvc]
+  have hs : ∀ f, allPass f nNum results = none := fun f => allPass_short f nNum results ⟨r, hr, hshort⟩
+  cases kind with
+  | projLinear => simp [violationCheckCore, hs]
+  | linear => cases para <;> simp_all [violationCheckCore, enforcesEq, enforcesIneq]
+  | other => simp [enforcesEq, enforcesIneq] at henf
+  | lossMin o =>
+      cases o with
+      | none => simp [enforcesEq, enforcesIneq] at henf
+      | some fl =>
+          obtain ⟨onEq, onIneq⟩ := fl
+          cases onEq <;> cases onIneq <;> simp_all [violationCheckCore, enforcesEq, enforcesIneq]
+
+example : violationCheck (.lossMin (some (false, true))) true 2 [[⟨true, true⟩, ⟨true, true⟩], [⟨true, true⟩]] = none :=
+  violation_check_short_row_raises_general _ _ _ _ [⟨true, true⟩] (by simp) (by decide) (Or.inr rfl)
+
+example : violationCheck .other true 2 [[⟨true, true⟩]] = some true := by decide
 
 /-- the documented thresholds -/
 theorem thresholds : eqEps true = 1 / 10000000000000 ∧ eqEps false = 1 / 100000 ∧ ineqEps = 1 / 100000 := by
